@@ -312,6 +312,23 @@ def r5(ctx):
     kw = {k.arg: src(k.value) for k in call[0].keywords} if call else {}
     ok = kw.get('start') == 'f_start' and kw.get('stop') == 'f_end' and kw.get('contig') == 'contig'
     ctx.emit('C12-R5', ok, BINCOUNTS, loop, f'fetch(contig={kw.get("contig")}, start={kw.get("start")}, stop={kw.get("stop")})', key='fetch-call', nontrivial=False)
+    # any other look at the alignments of the region (count / pileup / a second fetch that decides whether the job is worth doing) has to use the
+    # same widened window: a read stored just outside the job can have its site inside
+    if call and isinstance(call[0].func.value, ast.Name):
+        handle = call[0].func.value.id
+        others = [c for c in walk_no_nested(f) if isinstance(c, ast.Call) and isinstance(c.func, ast.Attribute) and isinstance(c.func.value, ast.Name) and c.func.value.id == handle
+                  and c is not call[0] and c.func.attr in ('count', 'fetch', 'pileup', 'count_coverage', 'find_introns')]
+        for c in others:
+            okw = {k.arg: src(k.value) for k in c.keywords}
+            pos = [src(a) for a in c.args]
+            st_ = okw.get('start', pos[1] if len(pos) > 1 else None)
+            en_ = okw.get('stop', okw.get('end', pos[2] if len(pos) > 2 else None))
+            if st_ is None and en_ is None:
+                continue            # whole file / whole contig
+            good = st_ == kw.get('start') and en_ == kw.get('stop')
+            ctx.emit('C12-R5', good, BINCOUNTS, c, f'`{src(c)[:80]}` looks at ({st_}, {en_})' + ('' if good else f', not at the fetch window ({kw.get("start")}, {kw.get("stop")}): what it finds (e.g. "no alignments '
+                     f'here") says nothing about reads stored just outside the job whose site lies inside - the counts then depend on where the job borders fall'),
+                     key='region-queries-use-fetch-window', what=f'{CF}: region query on the unpadded job window')
 
 
 @rule('C12', 'C12-R6', 'a read that passed the filters and lies in the job is counted on every path: between the ownership test and the increment nothing '
